@@ -311,8 +311,13 @@ pub fn relations(ctx: &Ctx) -> Stats {
                 let bc = rng.usize(5, 12);
                 let alt = if group == 5 {
                     let na = rng.usize(1, 10);
-                    let a = gen_records(&mut rng, na, k, None, 200, 0);
-                    Some(sc.write("alt.fa", &ser::to_fasta(&a, &SerOpts::plain())))
+                    // the alternative input is of the other format family every other time (.fq next to .fa)
+                    let a = gen_records(&mut rng, na, k, None, 200, 1);
+                    if idx % 16 >= 8 {
+                        Some(sc.write("alt.fq", &ser::to_fastq(&a, &SerOpts::plain())))
+                    } else {
+                        Some(sc.write("alt.fa", &ser::to_fasta(&a, &SerOpts::plain())))
+                    }
                 } else {
                     None
                 };
